@@ -127,7 +127,8 @@ class Problem(Exception):
     pass
 
 
-LABEL_KINDS = ["int", "int", "float-frac", "neg", "str", "float-whole", "int8-wide", "int16-wide"]
+LABEL_KINDS = ["int", "int", "float-frac", "neg", "str", "float-whole", "int8-wide", "int16-wide", "str-case"]
+CASE_LABELS = sorted([" a", "A", "B", "a", "a ", "b", "b ", "C", "c", " c", "S1", "s1", "s1 "])      # distinct labels that differ only in case / padding
 
 
 def enc(p, key):
@@ -143,6 +144,8 @@ def enc(p, key):
         vals = [7 * c - 10 for c in codes]              # negative, non-contiguous integers
     elif kind == "str":
         vals = ["g%02d" % c for c in codes]
+    elif kind == "str-case" and all(0 <= c < len(CASE_LABELS) for c in codes):
+        vals = [CASE_LABELS[c] for c in codes]
     elif kind == "int8-wide" and all(0 <= c <= 9 for c in codes):
         # labels spread over the whole range of a narrow signed type: differences of adjacent labels overflow in that type
         return POOL.get("lab-" + key, [25 * c - 120 for c in codes], np.int8)
@@ -161,8 +164,10 @@ def dec(p, a):
             out.append(int(round((v - 0.25) / 0.5)))
         elif kind == "neg":
             out.append(int(round((v + 10) / 7)))
-        elif kind == "str":
+        elif kind == "str" or (kind == "str-case" and isinstance(v, str) and v[:1] == "g" and v[1:].isdigit()):
             out.append(int(v[1:]))
+        elif kind == "str-case" and isinstance(v, str):
+            out.append(CASE_LABELS.index(v))
         elif kind == "int8-wide" and (int(v) + 120) % 25 == 0:
             out.append((int(v) + 120) // 25)
         elif kind == "int16-wide" and (int(v) + 32000) % 7000 == 0:
